@@ -492,4 +492,63 @@ example :
     (checkGlyphKeyed font [(i, good), (i, good)]).toBool = true := by
   refine ⟨by rfl, by rfl, by rfl⟩
 
+/-- **glyph_keyed_decoder_failure_is_error.**  For ANY decoder: if the decoder fails (any error kind)
+on the call made for the k-th patch of the group (calls are made in patch order, `dec k …`), or a
+patch does not carry the 'ifgk' tag, `apply_glyph_keyed_patches` returns an error — success implies
+that every one of the `n` decoder calls returned `ok`.  (The caller's status map is then untouched:
+`round_atomic`.) -/
+theorem glyph_keyed_decoder_failure_is_error (hs : List (PatchInfo × GKHeader)) (font : Font)
+    (dec : Decoder) (k : Nat) (hk : k < hs.length) (e : DErr)
+    (hfail : dec k hs[k].2.stream none hs[k].2.maxLen = .error e) :
+    ∃ e', applyGlyphKeyedCore hs font dec = .error e' := by
+  cases h : applyGlyphKeyedCore hs font dec with
+  | error e' => exact ⟨e', rfl⟩
+  | ok out =>
+    exfalso
+    unfold applyGlyphKeyedCore at h
+    cases hd : decodeAll dec (hs.map (·.2)) 0 with
+    | error x => rw [hd] at h; cases h
+    | ok raws =>
+      obtain ⟨_, hall⟩ := decodeAll_ok dec _ 0 raws hd
+      obtain ⟨_, raw, hr, _⟩ := hall k (by simpa using hk)
+      simp only [List.getElem_map, Nat.zero_add] at hr
+      rw [hfail] at hr
+      cases hr
+
+/-- **offset_width_widened_iff_needed** (generic `patch_offset_array`, any offset type family —
+glyf/loca, gvar, CFF/CFF2 charstrings): on success the chosen offset type can represent the new
+total data size; it is the table's current type whenever that fits; otherwise it is the FIRST
+available type (ascending order) that fits.  With `patchOffsetArray_eq` (Lemmas/IftSplice.lean) the
+data / offset array are the concatenation / running starts of the per-glyph chunks for that type. -/
+theorem offset_width_widened_iff_needed (a : OffsetArray) (repl : List (Nat × Bytes)) (maxGid : Nat)
+    (t : OffsetType) (data offs : Bytes) (h : patchOffsetArray a repl maxGid = .ok (t, data, offs)) :
+    ∃ total, totalDataSize a repl maxGid = .ok total ∧ total ≤ t.maxRepresentable ∧
+      (total ≤ a.offsetType.maxRepresentable → t = a.offsetType) ∧
+      (a.offsetType.maxRepresentable < total →
+        ∃ pre post, a.available = pre ++ t :: post ∧ ∀ c ∈ pre, c.maxRepresentable < total) := by
+  obtain ⟨total, h1, h2, _, _⟩ := patchOffsetArray_ok a repl maxGid t data offs h
+  obtain ⟨c1, c2, c3⟩ := chooseOffsetType_spec a total t h2
+  exact ⟨total, h1, c1, c2, fun hlt => (c3 hlt).2⟩
+
+/-- **glyf_loca_never_widens.**  glyf/loca offers no other offset type: when the patched glyf would
+exceed what the font's loca format can address (short loca: 0x1FFFE bytes) the result is the
+offset-overflow error, never a widened or truncated table. -/
+theorem glyf_loca_never_widens (font : Font) (a : OffsetArray) (ha : glyfAndLoca font = some a)
+    (repl : List (Nat × Bytes)) (maxGid total : Nat) (ht : totalDataSize a repl maxGid = .ok total)
+    (hbig : a.offsetType.maxRepresentable < total) :
+    patchOffsetArray a repl maxGid = .error (.serializationError SER_OFFSET_OVERFLOW) := by
+  obtain ⟨_, _, _, _, _, _, _, _, hav, _⟩ := glyfAndLoca_some font a ha
+  unfold patchOffsetArray
+  rw [ht]
+  simp only
+  have : chooseOffsetType a total = .error (.serializationError SER_OFFSET_OVERFLOW) := by
+    unfold chooseOffsetType
+    rw [if_pos hbig, hav]
+    have : decide (a.offsetType.maxRepresentable ≥ total) = false := by
+      simp only [decide_eq_false_iff_not]; omega
+    simp [List.find?, this]
+  rw [this]
+
+example : OffsetType.shortDivByTwo.maxRepresentable = 0x1FFFE := by decide
+
 end FontVerif.C18
